@@ -118,6 +118,8 @@ func (ds *documentSet) addContext(name string, doc dom.ContainerBuilder, newCtx 
 			if err != nil {
 				return err
 			}
+		} else {
+			newCtx.doc = doc
 		}
 		ds.ctxMap[name] = newCtx
 		ds.names = append(ds.names, name)
